@@ -126,7 +126,7 @@ theorem signLoop_succ (priv e : Bytes) (fuel : Nat) (sc : Script) :
           if c ≥ 0 ∨ K.all (· == 0) then signLoop X priv e fuel sc' else
           match scalarBaseMult X K with
           | .ok kG =>
-            let x := Point.getAffineXUnsafe X.C kG
+            let x := Point.getAffineX X.C kG
             let eInt := Bytes.toNatBE e
             let rInt := (x + eInt) % X.n
             if rInt = 0 then signLoop X priv e fuel sc' else
@@ -221,7 +221,7 @@ theorem signLoop_step (F : CurveFacts X) (priv e : Bytes)
     obtain ⟨x1, y1, hxy⟩ := smul_G_some hk0 hkn
     rw [hP, hxy]
     rw [hxy] at hrep
-    have hx : Point.getAffineXUnsafe X.C P = x1 := by rw [F.affineX P _ hrep]; rfl
+    have hx : Point.getAffineX X.C P = x1 := by rw [F.affineXSafe P _ hrep]; rfl
     simp only []
     rw [hx, F.n_eq, Nat.add_comm x1 (Bytes.toNatBE e)]
     by_cases hr0 : (Bytes.toNatBE e + x1) % Spec.SM2.n = 0
